@@ -31,7 +31,12 @@ func validRecordTextRef(t []byte) bool {
 }
 
 func genRecordText(r *rand.Rand) []byte {
-	alpha := []string{"a", "Z", "0", " ", "/", "@", "é", "世", "\u007f", "h1:", "=", "+", "v1.0.0", "example.com/m"}
+	alpha := []string{"a", "Z", "0", " ", "/", "@", "é", "世", "\u007f", "h1:", "=", "+", "v1.0.0", "example.com/m",
+		// code points at every UTF-8 length boundary, the replacement character itself, separators that are not control characters
+		"\u0080", "\u07ff", "\u0800", "\ufffd", "\uffff", "\U00010000", "\U0010ffff", "\ue000", "\u00a0", "\u2028", "\u0085", "~", "\u0020"}
+	if r.IntN(6) == 0 {
+		alpha = append(alpha, string(rune(0x20+r.IntN(0x10ffff-0x20)))) // any code point (surrogates become U+FFFD, which is valid text)
+	}
 	var sb strings.Builder
 	lines := 1 + r.IntN(4)
 	for i := 0; i < lines; i++ {
@@ -158,6 +163,40 @@ func runC09(c *mon.Ctx) {
 			c.Class(fmt.Sprintf("treehash:popcount=%d", pc))
 		}
 		c.Sample("store", 2, map[string]any{"records": N, "stored_hashes": len(st), "tree_hash": fmt.Sprintf("%x", ref.Root(N))})
+	}
+
+	// ---- leaf hash of records of every length 0..1100 and around larger powers of two -------------
+	if c.Batch%4 == 0 {
+		lens := []int{}
+		for l := 0; l <= 1100; l++ {
+			lens = append(lens, l)
+		}
+		lens = append(lens, 2047, 2048, 2049, 4095, 4096, 4097, 8191, 8192, 8193, 65535, 65536, 65537, 1<<20 - 1, 1 << 20, 1<<20 + 1)
+		for _, l := range lens {
+			id := fmt.Sprintf("recordhash:len%d", l)
+			if !c.Want(id) {
+				continue
+			}
+			b := make([]byte, l)
+			for j := range b {
+				b[j] = byte(r.IntN(256))
+			}
+			c.Eval(1)
+			c.Guard(id, nil, func() {
+				if tlog.RecordHash(b) != tlog.Hash(refmerkle.Leaf(b)) {
+					c.Violation("recordhash", id, map[string]any{"len": l})
+				}
+				if l > 0 {
+					// the last byte matters
+					b2 := append([]byte(nil), b...)
+					b2[l-1] ^= 1
+					if tlog.RecordHash(b2) == tlog.RecordHash(b) {
+						c.Violation("recordhash-ignores-last-byte", id, map[string]any{"len": l})
+					}
+				}
+			})
+		}
+		c.Class("recordhash:length-sweep")
 	}
 
 	// ---- sparse huge coordinates ------------------------------------------------------------
